@@ -184,9 +184,11 @@ impl<'template, 'env> State<'template, 'env> {
                     .collect(),
                 self.loaded_templates.clone(),
             )),
+            // the nested render has an inheritance chain of its own: what the
+            // outer render loaded must not count as a cycle there
             BlockState::Replace(blocks) => Some(SavedBlockState::Replaced(
                 std::mem::replace(&mut self.blocks, blocks),
-                self.loaded_templates.clone(),
+                std::mem::take(&mut self.loaded_templates),
             )),
         };
 
